@@ -32,7 +32,8 @@ type Analysis struct {
 	Flex     int `json:"flex"`
 	Grid     int `json:"grid"`
 	Table    int `json:"table"`
-	Shrink   int `json:"shrink"` // inline-block / float / abspos / table-cell (shrink-to-fit) nesting
+	Shrink   int `json:"shrink"`   // inline-block / float / abspos / table-cell (shrink-to-fit) nesting
+	Footnote int `json:"footnote"` // float: footnote elements nested in float: footnote elements
 	Depth    int `json:"depth"`
 	MaxText  int `json:"max_text"` // longest text node (runes)
 	Elements int `json:"elements"`
@@ -58,7 +59,7 @@ func analyzeDoc(d *Doc) (a Analysis) {
 	tc := tree.NewTargetCollector()
 	ctx := &textCtx{fc: fc, hyph: map[text.HyphenDictKey]hyphen.Hyphener{}, struts: map[text.StrutLayoutKey][2]pr.Float{}}
 	sf := tree.GetAllComputedStyles(doc, sheets, d.Hints, fc, nil, &pageRules, &tc, false, ctx)
-	type depths struct{ mc, fl, gr, tb, sh, d int }
+	type depths struct{ mc, fl, gr, tb, sh, fn, d int }
 	var walk func(n *html.Node, cur depths)
 	walk = func(n *html.Node, cur depths) {
 		switch n.Type {
@@ -97,10 +98,13 @@ func analyzeDoc(d *Doc) (a Analysis) {
 		if strings.Contains(disp, "inline-block") || strings.Contains(disp, "flow-root") && strings.Contains(disp, "inline") || st.GetFloat() != "none" || pos == "absolute" || pos == "fixed" || disp == "table-cell" {
 			cur.sh++
 		}
+		if st.GetFloat() == "footnote" {
+			cur.fn++
+		}
 		for _, p := range []struct {
 			v   int
 			dst *int
-		}{{cur.mc, &a.Multicol}, {cur.fl, &a.Flex}, {cur.gr, &a.Grid}, {cur.tb, &a.Table}, {cur.sh, &a.Shrink}, {cur.d, &a.Depth}} {
+		}{{cur.fn, &a.Footnote}, {cur.mc, &a.Multicol}, {cur.fl, &a.Flex}, {cur.gr, &a.Grid}, {cur.tb, &a.Table}, {cur.sh, &a.Shrink}, {cur.d, &a.Depth}} {
 			if p.v > *p.dst {
 				*p.dst = p.v
 			}
@@ -143,6 +147,9 @@ func (a Analysis) Tags() []string {
 	add("grid", a.Grid)
 	add("table", a.Table)
 	add("shrink-to-fit", a.Shrink)
+	if a.Footnote >= 2 {
+		out = append(out, "nest:footnote>=2") // a footnote inside a footnote
+	}
 	for _, th := range []int{100, 300, 1000} {
 		if a.MaxText >= th {
 			out = append(out, "text-run>="+itoa(th))
